@@ -1318,7 +1318,7 @@ impl<'a, 'b> B<'a, 'b> {
                         self.op(";");
                     }
                     self.depth -= 1;
-                    if self.t.chance(1, 5) {
+                    if self.t.chance(1, 3) {
                         self.tag("variant-record");
                         self.nl();
                         self.kw("case");
@@ -1329,18 +1329,34 @@ impl<'a, 'b> B<'a, 'b> {
                         self.named("Integer");
                         self.kw("of");
                         self.depth += 1;
-                        let arms = 1 + self.t.below(2);
+                        let arms = 1 + self.t.below(3);
                         for a in 0..arms {
                             self.nl();
-                            self.push(&a.to_string(), Kind::Number);
+                            // one or several labels per arm, numbers or (long) constant names
+                            let labels = if self.t.chance(1, 2) { 1 } else { 2 + self.t.below(3) };
+                            for l in 0..labels {
+                                if l > 0 {
+                                    self.op(",");
+                                }
+                                if self.t.chance(1, 2) {
+                                    self.push(&(a * 4 + l).to_string(), Kind::Number);
+                                } else {
+                                    let n = *self.t.pick(&["AlphaKindLabel", "BetaKindLabel", "GammaKindLabel", "ckA", "ckB", "DeltaKind"]);
+                                    self.named(n);
+                                }
+                            }
                             self.op(":");
                             self.op("(");
-                            self.fresh("F");
-                            self.op(":");
-                            self.type_name();
-                            if self.t.chance(1, 2) {
-                                self.op(";");
+                            let fields = if self.t.chance(1, 6) { 0 } else { 1 + self.t.below(4) };
+                            for f in 0..fields {
+                                if f > 0 {
+                                    self.op(";");
+                                }
                                 self.fresh("F");
+                                if self.t.chance(1, 4) {
+                                    self.op(",");
+                                    self.fresh("F");
+                                }
                                 self.op(":");
                                 self.type_name();
                             }
